@@ -32,6 +32,7 @@ type goPanicVal struct {
 }
 
 type Violation struct {
+	Pkg     string            `json:"pkg"`
 	Harness string            `json:"harness"`
 	Label   string            `json:"label"`
 	Kind    string            `json:"kind"` // "assert", "panic", "deadlock", "unwind", "lock"
@@ -42,6 +43,7 @@ type Violation struct {
 }
 
 type Witness struct {
+	Pkg     string            `json:"pkg"`
 	Harness string            `json:"harness"`
 	Label   string            `json:"label"`
 	Vars    map[string]string `json:"vars"`
@@ -113,7 +115,6 @@ type PathState struct {
 	depth    int
 	freshSeq int
 	opaqueID int
-	stack    []*Frame
 	// harness monitor state
 	side map[string]Value
 	// concurrency
@@ -174,8 +175,12 @@ func (m *Machine) goPanic(msg string) {
 
 func (m *Machine) stackNames() []string {
 	var out []string
-	for i := len(m.path.stack) - 1; i >= 0 && len(out) < 12; i-- {
-		out = append(out, m.path.stack[i].fn.String())
+	if m.path.cur == nil {
+		return nil
+	}
+	st := m.path.cur.stack
+	for i := len(st) - 1; i >= 0 && len(out) < 16; i-- {
+		out = append(out, st[i].fn.String())
 	}
 	return out
 }
@@ -472,7 +477,7 @@ func (m *Machine) recordViolation(extra *Term, label, kind string, stack []strin
 		m.stats.Inconclusive++
 		return
 	}
-	v := &Violation{Harness: m.cfg.Name, Label: label, Kind: kind, Vars: vars, Stack: stack,
+	v := &Violation{Pkg: m.cfg.Pkg, Harness: m.cfg.Name, Label: label, Kind: kind, Vars: vars, Stack: stack,
 		Site: m.innermostRepoFn(stack), Path: append([]Decision{}, m.path.taken...)}
 	m.stats.Violations = append(m.stats.Violations, v)
 }
@@ -486,7 +491,7 @@ func (m *Machine) reach(label string) {
 	if !ok {
 		return
 	}
-	w := &Witness{Harness: m.cfg.Name, Label: label, Vars: vars, Obs: map[string]string{}}
+	w := &Witness{Pkg: m.cfg.Pkg, Harness: m.cfg.Name, Label: label, Vars: vars, Obs: map[string]string{}}
 	// evaluate observations under the model
 	p := m.path
 	var ots []*Term
